@@ -32,6 +32,7 @@ class HAProxyProtocolWrapper(policies.ProtocolWrapper):
         super().__init__(factory, wrappedProtocol)
         self._proxyInfo: Optional[_info.ProxyInfo] = None
         self._parser: Union[V2Parser, V1Parser, None] = None
+        self._sniffBuffer = b""
 
     def dataReceived(self, data: bytes) -> None:
         if self._proxyInfo is not None:
@@ -39,6 +40,15 @@ class HAProxyProtocolWrapper(policies.ProtocolWrapper):
 
         parser = self._parser
         if parser is None:
+            data = self._sniffBuffer + data
+            if (len(data) < 16 and V2Parser.PREFIX.startswith(data[:12])) or (
+                len(data) < 8 and V1Parser.PROXYSTR.startswith(data[:5])
+            ):
+                # Not enough bytes yet to tell which version of the header
+                # this is; wait for more.
+                self._sniffBuffer = data
+                return None
+            self._sniffBuffer = b""
             if (
                 len(data) >= 16
                 and data[:12] == V2Parser.PREFIX
